@@ -500,6 +500,10 @@ class PG:
                 if ivars and rng.random() < 0.7:
                     n = rng.choice(ivars)
                     form = rng.choice(["i", "1", "bit"])
+                    # the loop variable outlives the loop: sometimes it is bound before and read afterwards
+                    keep_i = ind == "    " and rng.random() < 0.35 and form != "bit"
+                    if keep_i:
+                        body.append(f"{ind}i = {rng.randint(0, 3)}")
                     if form == "i":
                         body.append(f"{ind}for i in range({kk}):")
                         body.append(f"{ind}    {n} = ({n} + i)")
@@ -509,6 +513,11 @@ class PG:
                         body.append(f"{ind}for i in range({kk}):")
                         body.append(f"{ind}    {n} += {e}")
                         self.env[n] = f"Qint{max(self.w_of(self.env[n]), w)}"
+                    if keep_i:
+                        self.env["i"] = f"Qint{const_w(kk - 1)}"
+                        self.feat.add("loop_var_after_loop")
+                    if form in ("i", "1"):
+                        pass
                     else:
                         iv2 = rng.choice(ivars)
                         kk = min(kk, self.w_of(self.env[iv2]))
